@@ -1051,6 +1051,9 @@ func (s *c06state) probes() []*c06ev {
 			for _, f := range accts {
 				trs = append(trs, tr{sp, f, sp})
 				trs = append(trs, tr{sp, f, c06third(sp, f)})
+				if sp != f {
+					trs = append(trs, tr{sp, f, f}) // a spender moving the owner's tokens back to the owner (from == to)
+				}
 			}
 		}
 		if t == c06ONG {
